@@ -94,7 +94,8 @@ Enter(w, t) ==
         hold == Max({evs[ids[i]].hold : i \in DOMAIN ids})
         b    == [ids |-> ids, at |-> t, first |-> w.last, thr |-> w.minThr,
                  urgent |-> \E i \in DOMAIN ids : evs[ids[i]].prio = 3]
-        w1   == Acts(Emit([w EXCEPT !.set = <<>>, !.deadline = Inf, !.batches = Append(@, b)],
+        w1   == Acts(Emit(Emit([w EXCEPT !.set = <<>>, !.deadline = Inf, !.batches = Append(@, b)],
+                               Ev("handler_call", 0, 0, "", "", Len(ids))),
                           EvB("handler_in", ids)), ids, 1)
     IN  IF hold = 0 THEN AfterHandler(w1, t)
         ELSE [w1 EXCEPT !.pc = "handler", !.hEnd = t + hold]
